@@ -322,6 +322,18 @@ class VariadicTupleMethod(DeserializationMethod):
         return tuple(self.method.deserialize(data))
 
 
+_LITERAL_CLASSES = (bool, int, float, str, NoneType)
+
+
+def _json_class(data: Any) -> type:
+    # class used to match a literal: bool is not int (True == 1 == 1.0 and they hash
+    # equal), but an instance of a subclass (e.g. an IntEnum member) counts as its base
+    for base in data.__class__.__mro__:
+        if base in _LITERAL_CLASSES:
+            return base
+    return data.__class__
+
+
 @dataclass
 class LiteralMethod(DeserializationMethod):
     value_map: dict
@@ -332,8 +344,7 @@ class LiteralMethod(DeserializationMethod):
     def deserialize(self, data: Any) -> Any:
         try:
             value = self.value_map[data]
-            # True == 1 == 1.0 (and they hash equal): match on the class too
-            if data.__class__ in self.types:
+            if _json_class(data) in self.types:
                 return value
         except KeyError:
             pass
@@ -342,7 +353,10 @@ class LiteralMethod(DeserializationMethod):
         if self.coercer is not None:
             for cls in self.types:
                 try:
-                    return self.value_map[self.coercer(cls, data)]
+                    coerced = self.coercer(cls, data)
+                    value = self.value_map[coerced]
+                    if _json_class(coerced) is cls:
+                        return value
                 except (KeyError, TypeError):  # TypeError: unhashable coerced value
                     pass
         raise ValidationError(format_error(self.error, data))
